@@ -735,23 +735,38 @@ func runHistory(e *penv, side byte, h []pop, st *pstats, keepSteps bool) (*hres,
 
 // blame finds an earlier reference-rejected delivery whose removal makes the
 // violation disappear (the differential "rejected packets change nothing").
+// Single removals are tried first, then the removal of all rejected deliveries.
 func blame(e *penv, side byte, h []pop, k int) string {
 	full, err := runHistory(e, side, h[:k+1], nil, true)
 	if err != nil || full.violStep != k {
 		return ""
 	}
+	short := func(cls string) string {
+		if i := strings.LastIndex(cls, ":"); i >= 0 {
+			cls = cls[i+1:]
+		}
+		return cls
+	}
+	var all []pop
+	first := ""
 	for j := 0; j < k; j++ {
 		if h[j].K == 'A' || !full.steps[j].rejected {
+			all = append(all, h[j])
 			continue
+		}
+		if first == "" {
+			first = short(full.steps[j].Class)
 		}
 		hh := append(append([]pop(nil), h[:j]...), h[j+1:k+1]...)
 		r, err := runHistory(e, side, hh, nil, false)
 		if err == nil && r.violStep < 0 {
-			cls := full.steps[j].Class
-			if i := strings.LastIndex(cls, ":"); i >= 0 {
-				cls = cls[i+1:]
-			}
-			return cls
+			return short(full.steps[j].Class)
+		}
+	}
+	if first != "" {
+		all = append(all, h[k])
+		if r, err := runHistory(e, side, all, nil, false); err == nil && r.violStep < 0 {
+			return first
 		}
 	}
 	return ""
